@@ -33,7 +33,7 @@ SEMANTIC = [
     'assertion failed', 'possible arithmetic underflow/overflow', 'possible division by zero',
     'decreases not satisfied', 'possible bit shift underflow/overflow', 'unable to prove',
     'failed to prove', 'loop invariant not satisfied', 'index out of bounds', 'could not prove termination',
-    'unreachable', 'recommendation not met',
+    'unreachable', 'recommendation not met', 'precondition not met',
 ]
 INCONCLUSIVE = ['rlimit', 'resource limit', 'timed out', 'timeout']
 
@@ -545,6 +545,10 @@ class Unit:
             pat = re.compile(r'static\s+' + re.escape(nm) + r'\s*:\s*phf::Set<\s*(&?\w+)\s*>\s*=\s*phf_set!\s*\{((?:[^{}]|\{[^{}]*\})*)\}\s*;')
             mm = pat.search(text_body) or pat.search(src.text)
             if not mm:
+                # braces or quotes inside a // comment of the literal confuse the pattern: retry on text with line comments blanked
+                nocom = re.sub(r'//[^\n]*', lambda m_: ' ' * len(m_.group(0)), src.text)
+                mm = pat.search(nocom)
+            if not mm:
                 raise CutError("%s: phf_set %s not found (lost anchor)" % (path, nm))
             ty = mm.group(1)
             elems = [e.strip() for e in split_top_commas(re.sub(r'//[^\n]*', '', mm.group(2))) if e.strip()]
@@ -559,6 +563,9 @@ class Unit:
                                  "spec fn vset_%s_spec(c: Seq<char>) -> bool { %s }\n"
                                  "#[verifier::external_body]\nfn vset_%s_contains(c: &str) -> (r: bool)\n    ensures r == vset_%s_spec(c@)\n{ unimplemented!() }" % (nm, len(elems), nm, cond, nm, nm))
             text_body = pat.sub('', text_body)
+            mb_ = pat.search(re.sub(r'//[^\n]*', lambda m_: ' ' * len(m_.group(0)), text_body))
+            if mb_:
+                text_body = text_body[:mb_.start()] + text_body[mb_.end():]
             while True:
                 mk = mask(text_body)
                 cm = re.search(r'\b' + re.escape(nm) + r'\s*\.\s*contains\s*\(', mk)
